@@ -9,19 +9,22 @@ PROP_FILE = "PwVerif/Props/C11.lean"
 DRIVER = "Driver/C11.lean"
 THEOREMS = [
     "C11_closure_spec",
-    "C11_cycle_refused",
     "C11_dag_not_refused",
-    "C11_target_last",
+    "C11_cycle_refused",
+    "C11_exec_refused",
+    "C11_dependency_order",
     "C11_exact",
     "C11_exact_repaired",
     "C11_exact_partial",
     "C11_exact_witness",
+    "C11_parent_emits_witness",
     "C11_restored",
     "C11_refused_unchanged",
-    "C11_parents",
-    "C11_parents_restored",
-    "C11_parent_emits_witness",
+    "C11_automate_restored",
     "C11_automate_witness",
+    "C11_levels_shape",
+    "C11_parents",
+    "C11_parents_repaired",
 ]
 RULE = (
     "seeded scenes: parentless term/If nodes, children of a Workflow, children of a macro inside a workflow "
